@@ -111,6 +111,20 @@ func c14Gen(c *Ctx) *c14Scenario {
 			c14Op{Kind: "createTask", ID: "t1", Template: []string{"T1", "T1x"}[g.Intn(2)], DBRP: "db"},
 		)
 	}
+	// one case in eight opens with a running task, so that what follows (rename, disable, both at once, delete,
+	// script change, restart) meets an executing pipeline
+	if len(sc.Ops) == 0 && g.Chance(1, 8) {
+		sc.Ops = append(sc.Ops, c14Op{Kind: "createTask", ID: g.Pick(c14TaskIDs), Script: 1 + g.Intn(2), Status: "enabled", DBRP: "db"})
+		id := sc.Ops[0].ID
+		switch g.Intn(4) {
+		case 0:
+			sc.Ops = append(sc.Ops, c14Op{Kind: "patchTask", ID: id, NewID: g.Pick(c14TaskIDs), Status: "disabled"})
+		case 1:
+			sc.Ops = append(sc.Ops, c14Op{Kind: "patchTask", ID: id, NewID: g.Pick(c14TaskIDs)})
+		case 2:
+			sc.Ops = append(sc.Ops, c14Op{Kind: "patchTask", ID: id, Script: 1 + g.Intn(5)})
+		}
+	}
 	for i := 0; i < n; i++ {
 		var op c14Op
 		k := g.Intn(12)
@@ -140,6 +154,9 @@ func c14Gen(c *Ctx) *c14Scenario {
 				op.Status = "disabled"
 			case 3:
 				op.NewID = g.Pick(c14TaskIDs)
+				if g.Chance(1, 2) {
+					op.Status = []string{"enabled", "disabled", "disabled"}[g.Intn(3)] // rename and enable/disable in one request
+				}
 			case 4:
 				op.Vars = vars()
 			case 5:
@@ -701,6 +718,12 @@ func c14Run(c *Ctx, sc *c14Scenario, cfg simrt.Config, path string, from int, mo
 				}
 			}
 			alt = nil
+			for _, id := range c14TaskIDs {
+				if _, ok := life.model.Tasks[id]; !ok && d.TM.IsExecuting(id) {
+					life.verdict = Fail("executing/ghost", "%s the API shows no task %s, yet the task master is still executing a task of that id", when, id)
+					return false
+				}
+			}
 			for _, id := range simrt.Keys(life.model.Tasks) {
 				t := life.model.Tasks[id]
 				if t.Running != "?" && exec[id] != (t.Running == "ok") {
